@@ -68,15 +68,28 @@ Proof.
 Qed.
 
 (* ---- ROLEQ: the gyro-propagated quaternion, whichever of acc / mag is null ---------------------------------- *)
+Lemma leaf_dr_t w x y z g0 g1 g2 h a b c d (tl : list R) :
+  a = dr0 w x y z g0 g1 g2 h -> b = dr1 w x y z g0 g1 g2 h -> c = dr2 w x y z g0 g1 g2 h -> d = dr3 w x y z g0 g1 g2 h ->
+  [a / sqrt (a*a + b*b + c*c + d*d); b / sqrt (a*a + b*b + c*c + d*d); c / sqrt (a*a + b*b + c*c + d*d);
+   d / sqrt (a*a + b*b + c*c + d*d)] ++ tl = dr w x y z g0 g1 g2 h ++ tl.
+Proof. intros -> -> -> ->. reflexivity. Qed.
+Ltac rol_leaf w x y z g0 g1 g2 dt := apply Val_inj; apply (leaf_dr_t w x y z g0 g1 g2 dt); unfold dr0, dr1, dr2, dr3; field.
+(* the output is [q'; weights]: the weights come back unchanged, also when one of them is zero *)
 Lemma rol_a0 w x y z g0 g1 g2 m0 m1 m2 dt :
-  C13_rol_a0_R w x y z g0 g1 g2 m0 m1 m2 dt = Val (dr w x y z g0 g1 g2 dt).
-Proof. unfold C13_rol_a0_R. cbv zeta. apply Val_inj. apply leaf_dr'; unfold dr0, dr1, dr2, dr3; field. Qed.
+  C13_rol_a0_R w x y z g0 g1 g2 m0 m1 m2 dt = Val (dr w x y z g0 g1 g2 dt ++ [1;1]).
+Proof. unfold C13_rol_a0_R. cbv zeta. rol_leaf w x y z g0 g1 g2 dt. Qed.
 Lemma rol_m0 w x y z g0 g1 g2 a0 a1 a2 dt :
-  C13_rol_m0_R w x y z g0 g1 g2 a0 a1 a2 dt = Val (dr w x y z g0 g1 g2 dt).
-Proof. unfold C13_rol_m0_R. cbv zeta. destr_dec; apply Val_inj; apply leaf_dr'; unfold dr0, dr1, dr2, dr3; field. Qed.
+  C13_rol_m0_R w x y z g0 g1 g2 a0 a1 a2 dt = Val (dr w x y z g0 g1 g2 dt ++ [1;1]).
+Proof. unfold C13_rol_m0_R. cbv zeta. destr_dec; rol_leaf w x y z g0 g1 g2 dt. Qed.
 Lemma rol_am0 w x y z g0 g1 g2 dt :
-  C13_rol_am0_R w x y z g0 g1 g2 dt = Val (dr w x y z g0 g1 g2 dt).
-Proof. unfold C13_rol_am0_R. cbv zeta. apply Val_inj. apply leaf_dr'; unfold dr0, dr1, dr2, dr3; field. Qed.
+  C13_rol_am0_R w x y z g0 g1 g2 dt = Val (dr w x y z g0 g1 g2 dt ++ [1;1]).
+Proof. unfold C13_rol_am0_R. cbv zeta. rol_leaf w x y z g0 g1 g2 dt. Qed.
+Lemma rol_m0_w10 w x y z g0 g1 g2 a0 a1 a2 dt :
+  C13_rol_m0_w10_R w x y z g0 g1 g2 a0 a1 a2 dt = Val (dr w x y z g0 g1 g2 dt ++ [1;0]).
+Proof. unfold C13_rol_m0_w10_R. cbv zeta. try destr_dec; rol_leaf w x y z g0 g1 g2 dt. Qed.
+Lemma rol_a0_w01 w x y z g0 g1 g2 m0 m1 m2 dt :
+  C13_rol_a0_w01_R w x y z g0 g1 g2 m0 m1 m2 dt = Val (dr w x y z g0 g1 g2 dt ++ [0;1]).
+Proof. unfold C13_rol_a0_w01_R. cbv zeta. try destr_dec; rol_leaf w x y z g0 g1 g2 dt. Qed.
 
 (* ---- EKF: null acc returns the prior and leaves the covariance at its initial value; null mag is refused ------ *)
 Definition P_ekf0 : list R := [1;0;0;0; 0;1;0;0; 0;0;1;0; 0;0;0;1].
